@@ -112,6 +112,7 @@ def words(maxlen):
 # ------------------------------------------------------------- recorders
 
 class Rec:
+    global_ext = 0
     sig_ext = 0
     ct_plugin = 0
     invoke = 0
@@ -120,10 +121,37 @@ class Rec:
     @classmethod
     def reset(cls):
         cls.sig_ext = cls.ct_plugin = cls.invoke = cls.transfer = 0
+        cls.global_ext = 0
 
 
 def sig_ext_plugin(tape, stack, cache):
     Rec.sig_ext += 1
+
+
+def global_ext_plugin(tape, stack, cache):
+    """the extension registered for the whole PROCESS
+    (add_signature_extension): in force for a run unless the run's own
+    plugins argument supplies the scope"""
+    Rec.global_ext += 1
+
+
+class registered:
+    """add_signature_extension(global_ext_plugin) for the block, when the
+    configuration asks for it"""
+
+    def __init__(self, kw) -> None:
+        self.on = bool(kw.get('global_ext'))
+
+    def __enter__(self):
+        if self.on:
+            import tapescript
+            tapescript.add_signature_extension(global_ext_plugin)
+
+    def __exit__(self, *a):
+        if self.on:
+            import tapescript
+            tapescript.reset_signature_extensions()
+        return False
 
 
 def ct_plugin(tape, stack, cache):
@@ -287,6 +315,18 @@ def probes():
                                   + b'\x00\x01\x01', [], [('plugin', plug)])
     P['taproot_keypath'] = (isa.push(sig) + isa.push(PK) + O('TAPROOT')
                             + b'\x00' + out(), [b'o'], [('plugin', plug)])
+    # ... and the same instructions with an extension registered for the
+    # whole process: left in force, switched off for the run, or replaced for
+    # the run by the run's own plugins argument
+    gl = [('global-ext', {'global_ext': True}),
+          ('global-ext-off-for-run', {'global_ext': True, 'plugins':
+                                      {'signature_extensions': []}}),
+          ('global-ext-replaced-for-run', {'global_ext': True, **plug})]
+    for nm in ('get_message', 'check_sig', 'sign_f1', 'check_sig_f3',
+               'check_multisig_f3', 'check_sig_verify', 'check_multisig',
+               'check_multisig_2of3', 'check_multisig_2of2_verify',
+               'check_multisig_verify', 'taproot_keypath'):
+        P[nm] = (P[nm][0], P[nm][1], list(P[nm][2]) + gl)
     tr = isa.push(b'proof') + isa.push(b'src') + isa.push(b'\x01') \
         + isa.push(b'dest') + isa.push(b'') + isa.push(b'\x05') \
         + isa.push(TID) + O('CHECK_TRANSFER') + out()
@@ -313,8 +353,13 @@ def spec_effect(pname, label, kw):
     fl = kw.get('additional_flags', {})
     on = lambda f: fl.get(f, True)
     e = {'keys': {}, 'sig_ext': None, 'ct_plugin': None, 'invoke': None,
-         'transfer': None, 'o': None}
-    has_plugin = 'signature_extensions' in kw.get('plugins', {})
+         'transfer': None, 'o': None, 'global_ext': None}
+    has_plugin = bool(kw.get('plugins', {}).get('signature_extensions'))
+    if kw.get('global_ext'):
+        # once per signature-related instruction when the run does not
+        # supply the scope itself, never otherwise
+        e['global_ext'] = 0 if 'signature_extensions' in \
+            kw.get('plugins', {}) else 1
     if pname == 'invoke':
         e['keys'][b'IR'] = on(0)
         e['invoke'] = 1
@@ -358,7 +403,7 @@ def spec_effect(pname, label, kw):
         e['keys'][b'o'] = not fl.get('eval_return')
     elif pname == 'sign_f1':
         e['keys'] = {b's': True}
-        e['sig_ext'] = 1
+        e['sig_ext'] = 1 if has_plugin else 0
     elif pname in ('get_message', 'check_sig', 'check_sig_verify',
                    'check_multisig', 'check_multisig_verify',
                    'taproot_keypath', 'get_message_f3', 'check_sig_f3',
@@ -466,7 +511,7 @@ def observation(res, keys):
             tuple(c[b'o'][0] if isinstance(c.get(b'o'), list) and c[b'o']
                   else None for _ in (0,)),
             Rec.sig_ext, Rec.ct_plugin, Rec.invoke, Rec.transfer,
-            tuple(res['stack']))
+            Rec.global_ext, tuple(res['stack']))
 
 
 def classify_flags_problem(word, desc):
@@ -489,6 +534,11 @@ def applicable(word, pname, label, kw) -> bool:
     return True
 
 
+def top_observation(probe, kw, keys):
+    with registered(kw):
+        return observation(execute(place((), probe), kw), keys)
+
+
 def judge(ctx, word, pname, probe, keys, label, kw, top_obs):
     if not applicable(word, pname, label, kw):
         ctx.count('skipped.context_not_applicable')
@@ -496,9 +546,15 @@ def judge(ctx, word, pname, probe, keys, label, kw, top_obs):
     script = place(word, probe)
     case = {'word': list(word), 'probe': pname, 'config': label,
             'script': script}
+    with registered(kw):
+        return _judge(ctx, word, pname, keys, label, kw, top_obs, script, case)
+
+
+def _judge(ctx, word, pname, keys, label, kw, top_obs, script, case):
     res = execute(script, kw)
     obs = observation(res, keys)
     ctx.evaluated()
+    ctx.tab('configuration', label.split('=')[0])
     ctx.count('monitor.dispatches', Hook.dispatches)
     Hook.dispatches = 0
     ctx.tab('context_depth', len(word))
@@ -528,9 +584,11 @@ def judge(ctx, word, pname, probe, keys, label, kw, top_obs):
                           got)
             bad = True
     for name, cnt in (('sig_ext', Rec.sig_ext), ('ct_plugin', Rec.ct_plugin),
-                      ('invoke', Rec.invoke), ('transfer', Rec.transfer)):
+                      ('invoke', Rec.invoke), ('transfer', Rec.transfer),
+                      ('global_ext', Rec.global_ext)):
         if not bad and exp[name] is not None and cnt != exp[name]:
             key = {'sig_ext': 'sig-extension-plugin-count',
+                   'global_ext': 'registered-sig-extension-count',
                    'ct_plugin': 'check-template-plugin-count',
                    'invoke': 'contract-not-reached',
                    'transfer': 'contract-not-reached'}[name]
@@ -555,7 +613,8 @@ def judge(ctx, word, pname, probe, keys, label, kw, top_obs):
     if not bad and not kw.get('additional_flags') and \
             'callstack_limit' not in kw:
         functions = env.mods()[0]
-        first = (Rec.sig_ext, Rec.ct_plugin, Rec.invoke, Rec.transfer)
+        first = (Rec.sig_ext, Rec.ct_plugin, Rec.invoke, Rec.transfer,
+                 Rec.global_ext)
         neutral = O('TRUE') + O('POP0')
         for pos in (1, 2):
             Rec.reset()
@@ -571,7 +630,8 @@ def judge(ctx, word, pname, probe, keys, label, kw, top_obs):
             except BaseException:
                 pass
             ctx.evaluated()
-            now = (Rec.sig_ext, Rec.ct_plugin, Rec.invoke, Rec.transfer)
+            now = (Rec.sig_ext, Rec.ct_plugin, Rec.invoke, Rec.transfer,
+                   Rec.global_ext)
             if now != first:
                 ctx.violation('not-uniform-in-later-auth-script',
                               f'probe {pname} under {label} in context '
@@ -642,8 +702,7 @@ def run_shard(spec, ctx):
             for label, kw in cfgs:
                 top[(pname, label)] = judge(ctx, (), pname, probe, keys,
                                             label, kw, None) \
-                    if i == 0 else observation(execute(place((), probe), kw),
-                                               keys)
+                    if i == 0 else top_observation(probe, kw, keys)
         for n, word in enumerate(words(maxlen)):
             if not word or n % of != i:
                 continue
@@ -698,7 +757,8 @@ def replay(case, ctx):
         probe, keys, cfgs = P[case['probe']]
         for label, kw in cfgs:
             if label == case['config']:
-                top = observation(execute(place((), probe), kw), keys)
+                with registered(kw):
+                    top = observation(execute(place((), probe), kw), keys)
                 judge(ctx, word, case['probe'], probe, keys, label, kw, top)
     finally:
         functions.opcodes.clear()
